@@ -383,10 +383,17 @@ impl Worterbuch {
             self.store
                 .insert_cas(&path, value.clone(), version, force)?;
 
+        // persist the version the store now holds, not the one the request carried
+        let stored_version = self
+            .store
+            .cget(&path)
+            .map(|(_, version)| version)
+            .unwrap_or(version);
+
         self.persistent_storage
             .update_value(
                 &key,
-                &ValueEntry::Cas(value.clone(), version),
+                &ValueEntry::Cas(value.clone(), stored_version),
                 Some(client_id),
             )
             .await
